@@ -228,3 +228,10 @@ def spice_partition(text, pj, top):
         if c:
             classes.append(c)
     return sorted(classes, key=lambda c: c[0])
+
+
+def pkg_json_full(pkg):
+    """Everything in the package, as JSON, for locating the first difference between two packages."""
+    from google.protobuf.json_format import MessageToDict
+
+    return MessageToDict(pkg, preserving_proto_field_name=True)
